@@ -105,3 +105,24 @@ SMOOTH_CFG = {
     "konno_and_ohmachi": 2.0, "parzen": 0.8, "linear_rectangular": 0.6, "log_rectangular": 0.7,
     "linear_triangular": 1.2, "log_triangular": 0.9, "savitzky_and_golay": 5,
 }
+
+
+# ----------------------------------------------------------------------------- objects with harness-installed state
+def shell_traditional(HT, w=1, nf=3):
+    """An HvsrTraditional built by the REAL constructor on a throw-away concrete input, so that every attribute __init__
+    sets exists; the harness then installs its own (symbolic) state over it."""
+    return HT(np.arange(1.0, nf + 1), np.ones((w, nf)))
+
+
+def shell_azimuthal(HA, HT, naz=2):
+    return HA([shell_traditional(HT) for _ in range(naz)], [float(10 * k) for k in range(naz)])
+
+
+def shallow_twin(h):
+    """Copy of an object that shares the (immutable, symbolic) curve data but none of the containers."""
+    import copy
+    g = copy.copy(h)
+    for k, v in list(h.__dict__.items()):
+        if isinstance(v, (dict, list)):
+            setattr(g, k, copy.copy(v))
+    return g
